@@ -12,7 +12,8 @@
    message sequence: the model of a misbehaving peer that holds the session keys.
 
    new k=v ...        as h_sess (cv sv suite cauth ccb scb key resume ticket ems cca name year seed keepkeys) plus
-                      psk=1 (TLS<=1.2 PSK keys on both sides), psk13=1 (external TLS 1.3 PSK on both sides),
+                      psk=1 (TLS<=1.2 PSK keys on both sides), psk13=1 (external TLS 1.3 PSK on both sides; psk13=2: on the client only - offered, unknown to the server),
+                      decline=1 (with resume=1, without keepkeys: the client still offers its saved session / ticket, the server has forgotten it),
                       cgrp=a,b sgrp=a,b nshare=n (key exchange groups: client offers key shares for the first n of cgrp)
    mq                 collect + print both item lists
    md <dir> [n]       deliver the next n items of a direction (default 1), one step line each
@@ -354,7 +355,7 @@ static int hello_bits(const item_t *it) {
     const unsigned char *b = it->b; size_t n = it->len, o, hh = (size_t) HHL; int bits = 0;
     if (it->kind != 22 || n < hh + 2 + 32 + 1) return 0;
     if (it->t == 2 && memcmp(b + hh + 2, hrr, 32) == 0) bits |= 2;
-    o = hh + 2 + 32; if (o >= n) return bits; o += 1 + b[o];                     /* session id */
+    o = hh + 2 + 32; if (o >= n) return bits; if (it->t == 1 && b[o] > 0) bits |= 16; o += 1 + b[o];   /* session id (bit 4: ClientHello offers one) */
     if (it->t == 1 && g_sdtls) { if (o >= n) return bits; if (b[o] > 0) bits |= 4; o += 1 + b[o]; }   /* DTLS ClientHello: cookie (bit 2: not empty) */
     if (it->t == 1) { if (o + 2 > n) return bits; o += 2 + ((size_t) b[o] << 8) + b[o+1]; if (o + 1 > n) return bits; o += 1 + b[o]; }   /* suites, compression */
     else if (it->t == 2) o += 3; else return bits;
@@ -364,6 +365,8 @@ static int hello_bits(const item_t *it) {
             if (it->t == 1) { for (size_t k = 1; k + 1 < l; k += 2) if (b[o+k] == 3 && b[o+k+1] == 4) bits |= 1; }
             else if (l >= 2 && b[o] == 3 && b[o+1] == 4) bits |= 1;
         }
+        if (it->t == 1 && ty == 0x0029) bits |= 8;               /* bit 3: ClientHello carries pre_shared_key (a TLS 1.3 resumption / PSK offer) */
+        if (it->t == 1 && ty == 0x0023 && l > 0) bits |= 16;     /* bit 4: ... or a non-empty SessionTicket (a <= 1.2 resumption offer) */
         o += l; }
     return bits;
 }
@@ -437,7 +440,7 @@ static int md(int d, int n) {
 }
 
 /* ---------------------------------------------------------------- scenario creation (sess_new + PSK / groups) */
-typedef struct { int psk, psk13, ncg, nsg, nshare, ocsp, pmtu, frag, resend; uint16_t cg[4], sg[4]; } xcfg_t;
+typedef struct { int psk, psk13, ncg, nsg, nshare, ocsp, pmtu, frag, resend, decline; uint16_t cg[4], sg[4]; } xcfg_t;
 static int hs_new(scfg_t *c, xcfg_t *x) {
     int32 rc;
     peer_free(&g_c); peer_free(&g_s);
@@ -445,7 +448,7 @@ static int hs_new(scfg_t *c, xcfg_t *x) {
     memset(g_ilog, 0, sizeof g_ilog); items_reset();
     if (!c->keep_skeys) {
         if (g_skeys_persist) { matrixSslDeleteKeys(g_skeys_persist); g_skeys_persist = NULL; }
-        if (g_saved_sid) { matrixSslDeleteSessionId(g_saved_sid); g_saved_sid = NULL; }
+        if (g_saved_sid && !x->decline) { matrixSslDeleteSessionId(g_saved_sid); g_saved_sid = NULL; }   /* decline=1: the client keeps what it has, the server (library reopened: session cache empty; other ticket keys) no longer knows it */
         if (c->dtls) ent_seed(c->seed ^ 0x44544c53);      /* matrixSslOpen draws the DTLS cookie secret */
         matrixSslClose(); if (matrixSslOpen() < 0) return -9;
         g_vtime = 1592222400;
@@ -466,11 +469,11 @@ static int hs_new(scfg_t *c, xcfg_t *x) {
         if ((rc = load_identity(g_s.keys, c->key, 1, c->cauth ? 1 : 0)) < 0) return rc - 1000;
         if (c->ticket) {
             static const unsigned char tn[16] = "verif-ticketkey"; static unsigned char sk[32], hk[32];
-            memset(sk, 0x5a, 32); memset(hk, 0xa5, 32);
-            matrixSslLoadSessionTicketKeys(g_s.keys, tn, sk, 32, hk, 32);
+            memset(sk, x->decline ? 0x5b : 0x5a, 32); memset(hk, 0xa5, 32);
+            matrixSslLoadSessionTicketKeys(g_s.keys, x->decline ? (const unsigned char *) "verif-ticketkez" : tn, sk, 32, hk, 32);
         }
         if (x->psk && (rc = matrixSslLoadPsk(g_s.keys, pskkey, 16, pskid, 8)) < 0) return rc - 1100;
-        if (x->psk13 && (rc = matrixSslLoadTls13Psk(g_s.keys, psk13key, 32, psk13id, 10, NULL)) < 0) return rc - 1200;
+        if (x->psk13 == 1 && (rc = matrixSslLoadTls13Psk(g_s.keys, psk13key, 32, psk13id, 10, NULL)) < 0) return rc - 1200;
         if (x->ocsp && (rc = matrixSslLoadOCSPResponse(g_s.keys, ocsp_256_ec_good, sizeof(ocsp_256_ec_good))) < 0) return rc - 1300;
         g_skeys_persist = g_s.keys;
     }
@@ -529,6 +532,7 @@ static void do_new(char **a, int n) {
         else if (!strcmp(a[i], "keepkeys")) c.keep_skeys = atoi(v);
         else if (!strcmp(a[i], "psk")) x.psk = atoi(v);
         else if (!strcmp(a[i], "psk13")) x.psk13 = atoi(v);
+        else if (!strcmp(a[i], "decline")) x.decline = atoi(v);
         else if (!strcmp(a[i], "ocsp")) x.ocsp = atoi(v);
         else if (!strcmp(a[i], "dtls")) c.dtls = atoi(v);
         else if (!strcmp(a[i], "pmtu")) x.pmtu = atoi(v);
